@@ -1361,6 +1361,7 @@ def translate_target(repo, tgt: Target, structs, tr_class=None) -> tuple[str, Tr
     fn = inline.normalise(fn)
     tr = (tr_class or Tr)(tgt, structs)  # a typing sheet may select a subclass (`TR = …`) that accepts further constructs
     tr.fn_node = fn
+    tr.module_tree = tree  # for subclasses that check how a name was imported
     import inline
     tr.helpers = inline.helpers_of(tree, tgt.path.split(".")[0] if "." in tgt.path else None)
     tr.cfg_fns = resolve_config(tree, tgt)
